@@ -59,6 +59,7 @@ pub fn new_bind(w: &Rc<World>, lhs: usize, body: &BodySpec) {
                 let nodes = w.nodes.borrow();
                 nodes.iter().enumerate().filter(|(i, e)| e.h.is_some() && !e.pair && !e.trip && m.is_invalid(*i)).map(|(i, _)| i).collect()
             }
+            OuterSel::Recent(k) => clean.iter().rev().nth(*k).copied().into_iter().collect(),
             OuterSel::Sibling(_) => clean
                 .iter()
                 .copied()
@@ -71,6 +72,7 @@ pub fn new_bind(w: &Rc<World>, lhs: usize, body: &BodySpec) {
         }
         let i = match sel {
             OuterSel::Any(i) | OuterSel::LhsAncestor(i) | OuterSel::Sibling(i) | OuterSel::Invalid(i) => *i,
+            OuterSel::Recent(_) => 0,
         };
         let h = cands[i % cands.len()];
         if let Some(NodeH::I(n)) = w.node_h(h) {
